@@ -42,6 +42,10 @@ WHY = {
     "C15-4": "`genesis_hash` read from the sibling field `referenced_block` of `elements::PeginData`: the field list of a foreign-crate type is not among the extracted facts, so there is no sibling to compare names with",
     "C15-5": "`nonce_array` treats an explicit nonce as absent: a predicate on a runtime value (`is_confidential` vs `!is_null`)",
     "C16-7": "threshold satisfaction uses `any` instead of `all`: the and/or/threshold satisfaction logic is runtime behaviour that C16 states it does not decide",
+    "C16-9": "the threshold's selector bits use `binary_search` on a vector ordered by cost, not by index: whether a vector is sorted by the searched key is a runtime fact about its contents",
+    "C05-8": "a byte-wise fast path in `Frame::copy_from` that forgets the source cursor's alignment: bit-offset arithmetic of the frame (C13, not applicable); C05 decides the interpreter's shape, not the frame primitives",
+    "C12-9": "the loop that retries generated names skips every witness node instead of only typed holes, so an inline witness keeps a name the user defined: a condition on which node kinds take part in name retry; C17.names decides that generated names cannot clash lexically, not this retry policy",
+    "C17-9": "`bit_length & (bit_length - 1)` underflows for the empty literal and panics: an arithmetic-overflow panic on a runtime length; no rule bounds every subtraction in the parser",
     "C15-3": "`branch_len` computed by dividing by 33 instead of 32: arithmetic on a runtime length; no same-typed sibling to compare its source with",
 }
 ml = []
